@@ -8,7 +8,16 @@ run() {
   wt=/tmp/sw_$id.$$
   flock /tmp/.verif_wt.lock git -C /repo worktree add -q --detach $wt HEAD || { echo "$id worktree-failed"; return; }
   if ! git -C $wt apply $P 2>/dev/null; then
-    if [ -f /verif/$d/patch.rebased.diff ] && git -C $wt apply /verif/$d/patch.rebased.diff 2>/dev/null; then :; else echo "$id patch-does-not-apply"; flock /tmp/.verif_wt.lock git -C /repo worktree remove --force $wt; return; fi
+    if [ -f /verif/$d/patch.rebased.diff ] && git -C $wt apply /verif/$d/patch.rebased.diff 2>/dev/null; then :; else
+      # written against an older commit (later fix: commits touched the same lines): analysed on the newest base it
+      # applies to, that base's own alarms subtracted (refacb.sh)
+      flock /tmp/.verif_wt.lock git -C /repo worktree remove --force $wt
+      out=$(/verif/refacb.sh $P $prop 2>&1)
+      rules=$(echo "$out" | grep -E ": $prop\.[A-Za-z0-9]+ " | sed -E "s/^[^ ]+ ($prop\.[A-Za-z0-9]+) .*/\1/" | sort -u | tr '\n' ' ')
+      base=$(echo "$out" | grep -o 'analysed on base [0-9a-f]*' | awk '{print $4}')
+      if [ -n "$rules" ]; then echo "$id CAUGHT $rules(on-base-$base)"; elif [ -n "$base" ]; then echo "$id missed (on-base-$base)"; else echo "$id patch-does-not-apply"; fi
+      return
+    fi
   fi
   vd=/tmp/sv_$id.$$; mkdir -p $vd/evidence; cp /verif/known_findings.json $vd/
   out=$(GOFLAGS=-mod=mod GOPROXY=off GOSUMDB=off GOTOOLCHAIN=local /verif/bin/maddyverif -repo $wt -verif $vd -property $prop 2>&1)
